@@ -31,7 +31,26 @@ class _Mon:
         self.depth = 0
 
 
-def attach(owner, name, pre=None, post=None, label=None, also=(), around=None):
+def attach_hierarchy(base, name, **kw):
+    """attach(...) on `base` and on every already-loaded subclass that defines `name` itself: an
+    override in a subclass (which typically calls super()) must not slip past the monitor.  All
+    the attachment points share one nesting counter, so only the outermost call is decided."""
+    mon = _Mon()
+    out = []
+    seen = set()
+    stack = [base]
+    while stack:
+        cls = stack.pop()
+        if cls in seen:
+            continue
+        seen.add(cls)
+        stack.extend(cls.__subclasses__())
+        if name in cls.__dict__ and not getattr(cls.__dict__[name], "__vmon_original__", None):
+            out.append(attach(cls, name, _mon=mon, label=f"{base.__name__}.{name}", **kw))
+    return out
+
+
+def attach(owner, name, pre=None, post=None, label=None, also=(), around=None, _mon=None):
     """Attach a monitor to owner.name; `also` lists (module, attr) namespaces that
     imported the same function by name and must be rebound too.
 
@@ -44,7 +63,7 @@ def attach(owner, name, pre=None, post=None, label=None, also=(), around=None):
     if is_static or is_class:
         raw = orig.__func__
     label = label or f"{getattr(owner, '__name__', owner)}.{name}"
-    mon = _Mon()
+    mon = _mon or _Mon()
 
     @functools.wraps(raw)
     def wrapper(*a, **k):
